@@ -284,7 +284,15 @@ func (os *OutputStream) GetNext(ctx context.Context, lastseen robust.Id) []Messa
 	// Wait until a new message appears.
 	os.messagesMu.Lock()
 	for {
-		current, _ = os.getUnlocked(uint64(current.Messages[0].Id.Id))
+		refreshed, ok := os.getUnlocked(uint64(current.Messages[0].Id.Id))
+		if !ok {
+			// The message we were waiting behind was deleted in the
+			// meantime (compaction), so start over: the lookup falls
+			// back to searching for a more recent message.
+			os.messagesMu.Unlock()
+			return os.GetNext(ctx, lastseen)
+		}
+		current = refreshed
 		next, ok := os.getUnlocked(current.NextID)
 		if ok {
 			os.messagesMu.Unlock()
